@@ -5,14 +5,16 @@
 (*        p(X) - p(z) = sum_i (X_i - z_i) * w_i(X)                          *)
 (* one variable after the other; a polynomial is a function from exponent   *)
 (* vectors to coefficients (from_coefficients_vec merges like terms).       *)
-(* TLC enumerates every polynomial over the monomials of total degree <= 2  *)
-(* in 2 variables (mixed monomial X0*X1 included) with coefficients in      *)
+(* TLC enumerates every polynomial over the monomials of total degree <=    *)
+(* MaxDegree in 2 variables (mixed monomials such as X0*X1, X0^2*X1          *)
+(* included; at most MaxTerms non-zero terms) with coefficients in          *)
 (* Coeffs and every point in Points^2, checks the identity exactly, and     *)
 (* prints the quotients for comparison with the real function.              *)
 (***************************************************************************)
 EXTENDS Naturals, Integers, Sequences, FiniteSets, TLC, Json
 
-CONSTANTS Coeffs, Points, MaxDegree
+CONSTANTS Coeffs, Points, MaxDegree,
+          MaxTerms     \* only polynomials with at most this many non-zero terms (sparse enumeration for degree 3)
 
 NV == 2
 Exps == {e \in (0..MaxDegree) \X (0..MaxDegree) : e[1] + e[2] <= MaxDegree}
@@ -23,12 +25,13 @@ vars == <<p, z, var, cur, quots, done>>
 
 Zero == [e \in AllExps |-> 0]
 Init ==
-  /\ p \in [Exps -> Coeffs]
+  /\ p \in {f \in [Exps -> Coeffs] : Cardinality({e \in Exps : f[e] # 0}) <= MaxTerms}
   /\ z \in Points \X Points
   /\ var = 1 /\ cur = [e \in AllExps |-> IF e \in Exps THEN p[e] ELSE 0]
   /\ quots = <<>> /\ done = FALSE
 
-Pow(b, k) == IF k = 0 THEN 1 ELSE IF k = 1 THEN b ELSE IF k = 2 THEN b * b ELSE IF k = 3 THEN b * b * b ELSE b * b * b * b
+RECURSIVE Pow(_, _)
+Pow(b, k) == IF k <= 0 THEN 1 ELSE b * Pow(b, k - 1)
 Lower(e, i, k) == [e EXCEPT ![i] = k]
 RECURSIVE SumOver(_, _)
 SumOver(S, f) == IF S = {} THEN 0 ELSE LET x == CHOOSE y \in S : TRUE IN f[x] + SumOver(S \ {x}, f)
